@@ -21,6 +21,67 @@ import (
 type PF struct {
 	On    bool
 	Fired map[string]int64
+	kb    *ast.KnowledgeBase
+}
+
+// Drop removes a rule from the instance that is being executed (removal in the middle of a run).
+func (f *PF) Drop(name string) {
+	if f.kb != nil {
+		f.kb.RemoveRuleEntry(name)
+	}
+}
+
+// c16MidRunRemoval: a rule removed from an instance by an action of a running Execute never
+// fires again on that instance - not in the rest of that run, not in later runs - while a new
+// instance of the library still has it.
+func c16MidRunRemoval(cr *CaseResult) {
+	text := c16RuleText("R1", 1) + "\n" + c16RuleText("R2", 2) + "\n" +
+		`rule Dropper "removes R1 from the running instance" salience 100 { when F.On then F.Drop("R1"); Retract("Dropper"); }`
+	lib := ast.NewKnowledgeLibrary()
+	if err := builder.NewRuleBuilder(lib).BuildRuleFromResource("m", "1", pkg.NewBytesResource([]byte(text))); err != nil {
+		cr.inconclusive("mid-run removal scenario rejected by the builder")
+		return
+	}
+	inst, err := lib.NewKnowledgeBaseInstance("m", "1")
+	if err != nil {
+		cr.inconclusive("instance creation failed (judged by C09)")
+		return
+	}
+	for run := 1; run <= 2; run++ {
+		f := &PF{On: true, Fired: map[string]int64{}, kb: inst}
+		dc := ast.NewDataContext()
+		dc.Add("F", f)
+		e := engine.NewGruleEngine()
+		e.MaxCycle = 50
+		if err := e.Execute(dc, inst); err != nil {
+			cr.violate("mid-run removal scenario: Execute fails: "+err.Error(), map[string]interface{}{"grl": text, "run": run})
+			return
+		}
+		cr.Evals++
+		if _, fired := f.Fired["R1"]; fired {
+			cr.violate(fmt.Sprintf("rule R1 was removed from the instance by an action of run 1 (salience 100, before R1 could fire) but fired in run %d on that instance", run), map[string]interface{}{"grl": text, "run": run})
+			return
+		}
+		if _, fired := f.Fired["R2"]; !fired {
+			cr.violate("removing R1 in the middle of a run affected R2", map[string]interface{}{"grl": text, "run": run})
+			return
+		}
+	}
+	fresh, err := lib.NewKnowledgeBaseInstance("m", "1")
+	if err != nil {
+		cr.violate("NewKnowledgeBaseInstance fails after a removal on another instance: "+err.Error(), map[string]interface{}{"grl": text})
+		return
+	}
+	f := &PF{On: true, Fired: map[string]int64{}} // kb == nil: Drop is a no-op here
+	dc := ast.NewDataContext()
+	dc.Add("F", f)
+	e := engine.NewGruleEngine()
+	e.MaxCycle = 50
+	if err := e.Execute(dc, fresh); err != nil || f.Fired["R1"] != 1 || f.Fired["R2"] != 2 {
+		cr.violate(fmt.Sprintf("a removal on an instance changed the library: a new instance fired %v (err %v)", f.Fired, err), map[string]interface{}{"grl": text})
+		return
+	}
+	cr.inc("mid_run_removal_scenarios")
 }
 
 type kbKey struct{ name, ver string }
@@ -325,6 +386,9 @@ func runC16Case(c *Ctx, idx int) *CaseResult {
 				return fail(fmt.Sprintf("knowledge base %q/%q: alive rule texts %q, the history says %q", kk.name, kk.ver, got, c16Model(m)))
 			}
 		}
+	}
+	if idx%20 == 0 {
+		c16MidRunRemoval(cr)
 	}
 	if nontrivial {
 		cr.NonTrivial = append(cr.NonTrivial, hashStr(strings.Join(log, "\n")))
